@@ -47,10 +47,13 @@ def gen_cases(rng, tier):
                         if tier == "quick" and rng.random() < 0.5 and n not in (1, 2, 3, 5):
                             continue
                         dtype = rng.choice(["complex", "real", "int"])
+                        # amplitude regime: rounding error of an FFT is RELATIVE to the data, so tiny and huge data must work alike
+                        amp = rng.choice([1.0, 1.0, 1.0, 1e-12, 1e-15, 1e9]) if dtype != "int" else 1.0
+                        namp = rng.choice([0.25, 0.25, 1e-12, 1e-6])
                         g = rng.choice(gvs)
                         seed = rng.getrandbits(32)
                         cases.append({"kind": "call", "cls": cls, "npol": npol, "n": n, "noise": noise, "dom": dom,
-                                      "shift": shift, "dtype": dtype, "gv": g, "seed": seed})
+                                      "shift": shift, "dtype": dtype, "gv": g, "seed": seed, "amp": amp, "namp": namp})
     for n in lens:
         for shift in (False, True):
             for g in ([rng.choice(gvs), rng.choice(gvs)] if tier == "quick" else gvs):
@@ -73,8 +76,9 @@ def _data(case):
         if case["dtype"] == "real":
             return r.normal(size=shape) * 3
         return r.normal(size=shape) + 1j * r.normal(size=shape)
-    s = draw()
-    nz = draw() * 0.25 if case["noise"] else None
+    amp = case.get("amp", 1.0)
+    s = draw() * amp if case["dtype"] != "int" else draw()
+    nz = draw() * (case.get("namp", 0.25) * amp) if case["noise"] else None
     if nz is not None and case["dtype"] == "int":
         nz = r.integers(-3, 4, size=shape)
     return s, nz
@@ -199,7 +203,7 @@ def compare(case, res, reqs, replies):
             iv = [complex(a, b) for a, b in ir]
             if len(mr) != len(iv):
                 return [f"{name} row {r}: length {len(mr)} vs {len(iv)}"]
-            scale = max(1.0, max(abs(z) for z in iv))
+            scale = max(1e-300, max(abs(z) for z in iv), max(abs(z) for z in mr))
             for k, (a, b) in enumerate(zip(mr, iv)):
                 if abs(a - b) > 1e-9 * scale * max(1, n):
                     return [f"{name} row {r} sample {k}: model {a!r} impl {b!r}"]
@@ -208,7 +212,7 @@ def compare(case, res, reqs, replies):
     out += cmp_rows("noise", mnoise, res["noise"])
     if replies[1].startswith("ok "):
         p = Toks(replies[1][3:]).flist()
-        if len(p) != len(res["power"]) or any(abs(a - b) > 1e-9 * max(1.0, abs(b)) for a, b in zip(p, res["power"])):
+        if len(p) != len(res["power"]) or any(abs(a - b) > 1e-9 * max(1e-300, abs(b)) for a, b in zip(p, res["power"])):
             out.append(f"power: model {p} impl {res['power']}")
     else:
         out.append(f"power reply {replies[1][:60]}")
@@ -258,7 +262,7 @@ def oracle(case, res):
             continue
         a, y = ref_tr(inp)
         o = np.array([[complex(p, q) for p, q in row] for row in outp])
-        scale = max(1.0, float(np.max(np.abs(a)))) * max(1, n)
+        scale = max(1e-300, float(np.max(np.abs(a)))) * max(1, n)
         if o.shape != y.shape or np.max(np.abs(o - y)) > eps * scale:
             v.append((f"C02:transform-{name}", f"{name} of x({case['dom']!r},{case['shift']}) differs from numpy reference (n={n})"))
         # Parseval per row
@@ -268,12 +272,13 @@ def oracle(case, res):
         else:
             lhs = n * np.sum(np.abs(o) ** 2, axis=-1)
             rhs = np.sum(np.abs(a) ** 2, axis=-1)
-        if np.any(np.abs(lhs - rhs) > 1e-10 * np.maximum(1.0, rhs) * max(1, n)):
+        if np.any(np.abs(lhs - rhs) > 1e-10 * np.maximum(1e-300, rhs) * max(1, n)):
             v.append((f"C02:parseval-{name}", f"Parseval fails for {name}, n={n}: {lhs} vs {rhs}"))
-    scale = max(1.0, max(abs(complex(p, q)) for row in res["in_sig"] for p, q in row)) * max(1, n)
+    scale = max(1e-300, max(abs(complex(p, q)) for row in res["in_sig"] for p, q in row)) * max(1, n)
+    nscale = scale if res["in_noise"] is None else max(1e-300, max(abs(complex(p, q)) for row in res["in_noise"] for p, q in row)) * max(1, n)
     if "roundtrip_err" in res and res["roundtrip_err"] > eps * scale:
         v.append(("C02:roundtrip", f"x({case['dom']!r})(inverse) differs from x by {res['roundtrip_err']:.3e} (n={n})"))
-    if res.get("roundtrip_err_noise", 0) > eps * scale:
+    if res.get("roundtrip_err_noise", 0) > eps * nscale:
         v.append(("C02:roundtrip-noise", f"noise round trip error {res['roundtrip_err_noise']:.3e} (n={n})"))
     if "unshift_err" in res and res["unshift_err"] > eps * scale:
         v.append(("C02:unshift", f"opposite numpy shift does not recover the unshifted transform: {res['unshift_err']:.3e} (n={n}, dom={case['dom']})"))
@@ -281,7 +286,7 @@ def oracle(case, res):
     a = np.array([[complex(p, q) for p, q in row] for row in res["in_sig"]])
     tot = a if res["in_noise"] is None else a + np.array([[complex(p, q) for p, q in row] for row in res["in_noise"]])
     pw = np.mean(np.abs(tot) ** 2, axis=-1)
-    if len(res["power"]) != len(pw) or np.any(np.abs(np.array(res["power"]) - pw) > 1e-12 * np.maximum(1.0, pw)):
+    if len(res["power"]) != len(pw) or np.any(np.abs(np.array(res["power"]) - pw) > 1e-12 * np.maximum(1e-300, pw)):
         v.append(("C02:power", f"power() {res['power']} != mean|signal+noise|^2 {pw.tolist()}"))
     return v
 
